@@ -21,7 +21,15 @@ class Boom(Exception):
 
 
 # what a failing processor raises: its own exception class, or the ordinary ones an exporter really produces (a slow collector: TimeoutError)
-EXC_KINDS = {"boom": Boom, "timeout": TimeoutError, "key": KeyError, "stop": StopIteration, "assert": AssertionError, "oserror": ConnectionError}
+class Unprintable(Exception):
+    """An exception whose own __str__ fails (it formats a field that is not there)."""
+
+    def __str__(self) -> str:
+        raise RuntimeError("__str__ of the processor's exception is broken too")
+
+
+EXC_KINDS = {"boom": Boom, "timeout": TimeoutError, "key": KeyError, "stop": StopIteration, "assert": AssertionError, "oserror": ConnectionError,
+             "unprintable": Unprintable}
 _EXC: list[type] = [Boom]
 
 
@@ -195,6 +203,7 @@ class C13(Prop):
         gens = [lambda: gen.gen_dag_program(rng, max_nodes=5, depth=rng.choice([0, 1])), lambda: gen.gen_gated_cfg(rng),
                 lambda: gen.gen_loop_bounded(rng), lambda: gen.gen_failing_dag(rng), lambda: gen.gen_map_node(rng)]
         forced = 3
+        forced_exc = ["unprintable", "unprintable", "oserror", "timeout"]      # whatever the seed
         forced_typed = 4      # whatever the seed: observers written against the TYPED interface, a failing one next to a healthy one, run after run
         forced_await = 4      # whatever the seed: fan-outs under the async runner with an async processor that really suspends
         while True:
@@ -207,23 +216,26 @@ class C13(Prop):
             forced_typed = max(0, forced_typed - 1)
             if forced or rng.random() < 0.1:
                 forced = max(0, forced - 1)
-                c = self._fanout(rng)
+                c = self._fanout(rng, with_end=forced >= 1)
             else:
                 c = rng.choice(gens)()
             yield {"program": c["program"], "values": c["values"], "cfg": c.get("cfg", {}), "runner": rng.choice(["sync", "async"]),
                    "flavour": rng.choice(["sync", "async"]), "awaits": rng.random() < 0.4, "sample_seed": rng.randint(0, 10**6),
                    "procKind": "typed" if forced_typed else rng.choice(["plain", "plain", "equal", "unhashable", "sized", "typed"]), "warnErr": rng.random() < 0.3,
-                   "excKind": rng.choice(list(EXC_KINDS)),
+                   "excKind": forced_exc.pop() if forced_exc else rng.choice(list(EXC_KINDS)),
                    "disp": {"n": rng.randint(1, 8), "procs": [self._rand_proc(rng) for _ in range(rng.randint(1, 4))]}}
 
     @staticmethod
-    def _fanout(rng: random.Random) -> dict:
+    def _fanout(rng: random.Random, with_end: bool = False) -> dict:
         """A multi-target gate fanning out to several branches (its decision is a LIST kept by the run) next to a gate that decides nothing."""
         k = rng.randint(2, 3)
         ts = [f"b{i}" for i in range(k)]
         pick = rng.sample(ts, rng.randint(1, k))
+        has_end = with_end or rng.random() < 0.3
+        if has_end and (with_end or rng.random() < 0.5):
+            pick.insert(rng.randint(0, len(pick)), "__END__")       # a decision that MIXES targets with END (accepted: the named targets run)
         nodes = [{"name": "src", "kind": "fn", "params": [["a", None]], "dataOuts": ["x"], "body": {"b": "sum", "k": 0}},
-                 {"name": "fan", "kind": "route", "params": [["x", None]], "targets": ts + (["__END__"] if rng.random() < 0.3 else []), "multiTarget": True,
+                 {"name": "fan", "kind": "route", "params": [["x", None]], "targets": ts + (["__END__"] if has_end else []), "multiTarget": True,
                   "fallback": None, "defaultOpen": rng.random() < 0.5, "body": {"b": "table", "rows": [[1, pick]], "dflt": [ts[0]]}},
                  {"name": "quiet", "kind": "route", "params": [["x", None]], "targets": ["side", "__END__"], "multiTarget": False, "fallback": None,
                   "defaultOpen": rng.random() < 0.5, "body": {"b": "table", "rows": [[7, "side"]], "dflt": None}},
